@@ -40,6 +40,7 @@ int main(int argc, char **argv)
         else if (scn.lang == "lauth") runLauth(scn, out);
         else if (scn.lang == "proxy") runProxy(scn, out);
         else if (scn.lang == "life") runLife(scn, out);
+        else if (scn.lang == "tls") runTls(scn, out);
         else out.obs << "badlang";
         std::cout << "ORA " << scn.id.toStdString() << " " << out.ora.join(' ').toStdString() << "\n";
         std::cout << "OBS " << scn.id.toStdString() << " " << out.obs.join(' ').toStdString() << std::endl;
